@@ -61,6 +61,20 @@ class Executor(ExprMixin, ContainerMixin, CallMixin, StmtMixin, ObjectMixin):
             if z3.is_and(g) and len(out) < limit:
                 for ch in g.children():
                     rec(ch)
+            elif z3.is_quantifier(g) and g.is_forall() and len(out) < limit:
+                # forall xs. A -> (B1 & B2 ...)   ==>   one quantified goal per Bi
+                n = g.num_vars()
+                consts = [z3.Const(f"{g.var_name(i)}", g.var_sort(i)) for i in range(n)]
+                body = z3.substitute_vars(g.body(), *reversed(consts))
+                pats = [z3.substitute_vars(g.pattern(i), *reversed(consts)) for i in range(g.num_patterns())]
+                if z3.is_implies(body) and z3.is_and(body.arg(1)) and body.arg(1).num_args() > 1:
+                    for b in body.arg(1).children():
+                        pp = []
+                        for pt in pats:
+                            pp.append(z3.MultiPattern(*pt.children()) if pt.num_args() > 1 else pt.arg(0))
+                        out.append(ForAll(consts, Implies(body.arg(0), b), patterns=pp) if pp else ForAll(consts, Implies(body.arg(0), b)))
+                else:
+                    out.append(g)
             else:
                 out.append(g)
 
